@@ -220,46 +220,30 @@ EvalSeq(xs, rho, selfs) == [j \in 1..Len(xs) |-> EvalE(xs[j], rho, selfs)]
 EvalFlds(fl, rho, selfs) == [j \in 1..Len(fl) |-> Fld(fl[j].nm, EvalE(fl[j].ex, rho, selfs))]
 FldVals(fs) == [j \in 1..Len(fs) |-> fs[j].val]
 
-(* ---- which calls the reference describes --------------------------------------- *)
-(* A function closes over the bindings that exist at its definition, so it cannot  *)
-(* name itself; the only way to an evaluation without end is to hand a function     *)
-(* that applies something it was GIVEN to a function that applies something it was  *)
-(* given  (let w = func (a) => a(a); w(w)).  The reference has no recursion bound,  *)
-(* it leaves such calls undescribed ("unm"): generators built on it do not produce  *)
-(* them, and C04 probes them as given texts.  AppliesGiven over-approximates.       *)
-RECURSIVE AppliesGiven(_, _), HandsOn(_)
-AnyGiven(xs, ps) == \E j \in 1..Len(xs) : AppliesGiven(xs[j], ps)
-InPs(n, ps) == \E j \in 1..Len(ps) : ps[j] = n
-AppliesGiven(x, ps) ==
-  CASE x.e \in {"lit", "sym"} -> FALSE
-    [] x.e \in {"grp", "trace", "not", "fail", "cast"} -> AppliesGiven(x.x, ps)
-    [] x.e = "list" -> AnyGiven(x.xs, ps)
-    [] x.e = "tuple" -> \E j \in 1..Len(x.flds) : AppliesGiven(x.flds[j].ex, ps)
-    [] x.e = "call" -> InPs(x.fn, ps) \/ AnyGiven(x.args, ps)
-    [] x.e = "range" -> AppliesGiven(x.lo, ps) \/ AppliesGiven(x.hi, ps) \/ AnyGiven(x.step, ps)
-    [] x.e = "select" -> AppliesGiven(x.x, ps) \/ AnyGiven(x.dflt, ps)
-                         \/ \E j \in 1..Len(x.flds) : AppliesGiven(x.flds[j].ex, ps)
-    [] x.e = "copy" -> InPs(x.sel, ps) \/ \E j \in 1..Len(x.flds) : AppliesGiven(x.flds[j].ex, ps)
-    [] x.e = "fop" -> x.fn.e # "sym" \/ InPs(x.fn.nm, ps) \/ AnyGiven(x.acc, ps) \/ AppliesGiven(x.tgt, ps)
-    [] x.e = "fmt" -> TRUE
-    [] x.e = "bin" -> IF x.op = "dot" THEN AppliesGiven(x.l, ps) \/ x.r.e \in {"call", "copy"}
-                      ELSE AppliesGiven(x.l, ps) \/ AppliesGiven(x.r, ps)
-    [] OTHER -> TRUE                    \* nested function and module literals: not analysed
-HigherOrder(f) == f.t = "func" /\ AppliesGiven(f.body, f.ps)
-HandsOn(v) ==      \* the value carries a function that applies what it is given
-  CASE v.t = "func" -> HigherOrder(v)
-    [] v.t = "list" -> \E j \in 1..Len(v.es) : HandsOn(v.es[j])
-    [] v.t = "tuple" -> \E j \in 1..Len(v.fs) : HandsOn(v.fs[j].val)
-    [] v.t = "module" -> TRUE
-    [] OTHER -> FALSE
+(* ---- how deep the reference follows nested evaluation ----------------------------- *)
+(* A function closes over the bindings that exist at its definition, so it cannot name  *)
+(* itself - but it can be HANDED itself (let w = func (a) => a(a); w(w)), and a module   *)
+(* can be handed itself through an override: evaluation then nests without end.  The    *)
+(* language sets no bound, the reference follows MaxNest nested calls / instantiations   *)
+(* and leaves anything deeper undescribed ("unm"): generators built on it do not produce *)
+(* such programs, C04 probes them as given texts.  The nesting depth travels in the      *)
+(* environment under a name no program can write.                                        *)
+MaxNest == 16
+N_depth == << "<", "d", "e", "p", "t", "h", ">" >>
+DepthOf(rho) == IF \E j \in 1..Len(rho) : rho[j].nm = N_depth THEN Lookup(rho, N_depth).i ELSE 0
+(* the callee, marked with the depth of the place it is called from *)
+At(f, rho) == IF f.t = "func" THEN [t |-> "func", ps |-> f.ps, body |-> f.body, env |-> f.env, dp |-> DepthOf(rho)]
+              ELSE IF f.t = "module" THEN [t |-> "module", flds |-> f.flds, out |-> f.out, body |-> f.body, dp |-> DepthOf(rho)]
+              ELSE f
+DpOf(f) == IF "dp" \in DOMAIN f THEN f.dp ELSE 0
 
 (* a call: arity must match; body sees the definition-time bindings plus the  *)
 (* parameters (which shadow them); `self` is not available inside             *)
 Call(f, args) ==
   IF f.t # "func" THEN Err
   ELSE IF Len(args) # Len(f.ps) THEN Err
-  ELSE IF (\E j \in 1..Len(args) : HandsOn(args[j])) /\ HigherOrder(f) THEN Unm
-  ELSE EvalE(f.body, f.env \o [j \in 1..Len(args) |-> Fld(f.ps[j], args[j])], << >>)
+  ELSE IF DpOf(f) >= MaxNest THEN Unm
+  ELSE EvalE(f.body, f.env \o << Fld(N_depth, IntV(DpOf(f) + 1)) >> \o [j \in 1..Len(args) |-> Fld(f.ps[j], args[j])], << >>)
 
 (* module instantiation: parameters = defaults merged with the overrides (same *)
 (* type rule as copy) plus `this`; the body sees ONLY `mod`; result is the out *)
@@ -275,13 +259,14 @@ SortFlds(fs) ==
 Inst(m, ovs) ==
   LET merged == MergeAll(m.flds, ovs)
   IN IF IsBadFs(merged) THEN Err
-     ELSE LET withThis == MergeOne(merged, Fld(N_this, m))
-              r == Exec(m.body, << Fld(N_mod, TupleV(withThis)) >>, << >>)
+     ELSE IF DpOf(m) >= MaxNest THEN Unm
+     ELSE LET withThis == MergeOne(merged, Fld(N_this, ModV(m.flds, m.out, m.body)))
+              r == Exec(m.body, << Fld(N_mod, TupleV(withThis)), Fld(N_depth, IntV(DpOf(m) + 1)) >>, << >>)
           IN IF IsBadFs(withThis) THEN Err
              ELSE IF r.k = "unm" THEN Unm
              ELSE IF r.k = "fail" THEN Err
              ELSE IF m.out # << >> THEN EvalE(m.out[1], r.env, << >>)
-             ELSE TupleV(SortFlds(SelectSeq(r.env, LAMBDA f : f.nm # N_mod)))
+             ELSE TupleV(SortFlds(SelectSeq(r.env, LAMBDA f : f.nm # N_mod /\ f.nm # N_depth)))
 
 (* map / filter / reduce *)
 MapL(f, es) ==
@@ -355,7 +340,7 @@ CopyOn(base, flds, rho, selfs) ==
           ELSE IF IsBadFs(own) THEN Err
           ELSE IF base.t = "tuple"
                  THEN (LET r == MergeAll(base.fs, own) IN IF IsBadFs(r) THEN Err ELSE TupleV(r))
-                 ELSE Inst(base, own)
+                 ELSE Inst(At(base, rho), own)
 
 (* ---- constraints after `::` (vm.rs op_build_constraint / op_check_constraint) ---- *)
 (* At run time only RANGES and ALTERNATIVES are checked: a single example value after  *)
@@ -412,7 +397,7 @@ EvalE(e, rho, selfs) ==
     [] e.e = "call" ->
          LET f  == Lookup(rho, e.fn)
              as == EvalSeq(e.args, rho, selfs)
-         IN IF AnyBad(as) THEN Worst(as) ELSE IF Bad(f) THEN f ELSE Call(f, as)
+         IN IF AnyBad(as) THEN Worst(as) ELSE IF Bad(f) THEN f ELSE Call(At(f, rho), as)
     [] e.e = "range" ->
          LET lo == EvalE(e.lo, rho, selfs)
              hi == EvalE(e.hi, rho, selfs)
@@ -439,7 +424,7 @@ EvalE(e, rho, selfs) ==
              m  == MergeAll(<< >>, fs)
          IN IF Bad(w) THEN w ELSE IF IsBadFs(m) THEN Err ELSE ModV(m, e.out, e.body)
     [] e.e = "fop" ->
-         LET f   == EvalE(e.fn, rho, selfs)
+         LET f   == At(EvalE(e.fn, rho, selfs), rho)
              tg  == EvalE(e.tgt, rho, selfs)
              acc == IF e.kind = "reduce" THEN EvalE(e.acc[1], rho, selfs) ELSE Null
          IN IF AnyBad(<< f, tg, acc >>) THEN Worst(<< f, tg, acc >>)
@@ -492,7 +477,7 @@ EvalE(e, rho, selfs) ==
                           [] e.r.e = "call" ->
                                LET f  == Select(base, StrV(e.r.fn))
                                    as == EvalSeq(e.r.args, rho, selfs)
-                               IN IF AnyBad(as) THEN Worst(as) ELSE IF Bad(f) THEN f ELSE Call(f, as)
+                               IN IF AnyBad(as) THEN Worst(as) ELSE IF Bad(f) THEN f ELSE Call(At(f, rho), as)
                           [] OTHER ->
                                LET key == EvalE(e.r, rho, selfs) IN IF Bad(key) THEN key ELSE Select(base, key))
            [] e.op = "in" ->
